@@ -1,3 +1,4 @@
+import BalmProofs.ControlSound
 import BalmProofs.JudgeSpec
 import Balm
 import BalmProofs.AttrTest
